@@ -1279,6 +1279,10 @@ func (g *sqlGen) env() *sqlEnv {
 }
 
 func sqlCases(g *sqlGen, c *crit, e *sqlEnv, tag string) []Case {
+	if guardBegin("sql " + fmt.Sprint(c)) {
+		return []Case{crashCase("sql " + fmt.Sprint(c))}
+	}
+	defer guardEnd()
 	var out []Case
 	tenvSx, venvSx := []string{}, []string{}
 	tenv := types.NewEnv()
